@@ -19,17 +19,29 @@ ASSUMPTIONS = [
     'reference densities from the error-model docstrings (vf/ref.py)',
     'for tied times the order of the pointwise values within the tie group is not specified (compared as multiset)']
 REQUIRED = ['tmode:identical', 'tmode:disjoint', 'tmode:nested', 'tmode:overlap', 'tmode:free', 'tmode:single',
-            'tied', 'oos', 'decreasing', 'len1', 'em:gauss', 'em:mult', 'em:cm', 'em:lognorm', 'reduced_em']
+            'tied', 'oos', 'decreasing', 'len1', 'em:gauss', 'em:mult', 'em:cm', 'em:lognorm', 'reduced_em',
+            'unmeasured_output_first', 'negative_outputs:cm']
 
 
 @st.composite
 def _spec(draw):
-    ll = llbuild.draw_ll(draw)
+    ll = llbuild.draw_ll(draw, allow_empty=True)
     params = llbuild.draw_ll_params(draw, ll)
+    signed = False
+    if gen.chance(draw, 0.25):
+        sp = llbuild.draw_signed_params(draw, ll, params)
+        if sp is not None:
+            params, signed = sp, True
     oos = None
     nsig = sum(llbuild.ll_n_sigma(ll))
-    if nsig > 0 and gen.chance(draw, 0.1):
-        oos = draw(st.integers(0, nsig - 1))
+    # (a non-positive scale of an output that was never measured: not stated whether it rejects the vector)
+    cand, pos = [], 0
+    for o, k in enumerate(llbuild.ll_n_sigma(ll)):
+        if ll['times'][o]:
+            cand += list(range(pos, pos + k))
+        pos += k
+    if cand and not signed and gen.chance(draw, 0.1):
+        oos = draw(st.sampled_from(cand))
         params[ll['n_par'] + oos] = draw(st.sampled_from([0.0, -0.5]))
     decreasing = False
     if gen.chance(draw, 0.05):
@@ -40,7 +52,7 @@ def _spec(draw):
             decreasing = True
     ll['flat_single'] = ll['n_out'] == 1 and draw(st.booleans())
     prior = llbuild.draw_prior(draw, llbuild.ll_n_parameters(ll), params)
-    return dict(ll=ll, params=params, oos=oos, decreasing=decreasing, prior=prior)
+    return dict(ll=ll, params=params, oos=oos, decreasing=decreasing, prior=prior, signed=signed)
 
 
 def strategy(tier):
@@ -58,6 +70,15 @@ def classify(spec):
         labs.append('decreasing')
     if any(len(t) == 1 for t in ll['times']):
         labs.append('len1')
+    if any(len(t) == 0 for t in ll['times']):
+        labs.append('unmeasured_output')
+        first = min(o for o in range(ll['n_out']) if ll['times'][o])
+        if first > 0:
+            labs.append('unmeasured_output_first')
+    if spec.get('signed'):
+        labs.append('negative_outputs')
+        if any(e['kind'] == 'cm' for e in ll['ems']):
+            labs.append('negative_outputs:cm')
     for e in ll['ems']:
         labs.append('em:' + e['kind'])
         if e['fixed']:
